@@ -1,6 +1,7 @@
 package main
 
 import (
+	"go/types"
 	"sort"
 
 	"golang.org/x/tools/go/callgraph"
@@ -37,6 +38,9 @@ const (
 type searchState struct {
 	fn   *ssa.Function
 	mode searchMode
+	// entry: for external modes, the module function that called into the
+	// standard library (used to filter callbacks back into module code).
+	entry *ssa.Function
 }
 
 type searchHop struct {
@@ -52,18 +56,23 @@ type Reach struct {
 	Skip func(callee *ssa.Function) bool
 	// CutEdge: ignore this edge entirely.
 	CutEdge func(e *callgraph.Edge) bool
-	prev    map[searchState]searchHop
+	// PreciseCallbacks: a call from standard-library code back into a module
+	// function g is followed only if the module function that entered the
+	// library can have supplied g (it references g, materialises g's receiver
+	// type, or has interface/function-typed parameters it may be forwarding).
+	PreciseCallbacks bool
+	prev             map[searchState]searchHop
 	order   []searchState
 }
 
 // Run explores from the given sources. visit is called for each edge whose
 // caller has been reached, with the caller's mode.
-func (r *Reach) Run(sources []*ssa.Function, visit func(e *callgraph.Edge, callerMode searchMode)) {
+func (r *Reach) Run(sources []*ssa.Function, visit func(e *callgraph.Edge, caller searchState)) {
 	g := r.p.CallGraph()
 	r.prev = map[searchState]searchHop{}
 	var queue []searchState
 	for _, s := range sources {
-		st := searchState{s, modeModule}
+		st := searchState{fn: s, mode: modeModule}
 		if _, ok := r.prev[st]; !ok {
 			r.prev[st] = searchHop{}
 			queue = append(queue, st)
@@ -90,23 +99,33 @@ func (r *Reach) Run(sources []*ssa.Function, visit func(e *callgraph.Edge, calle
 			}
 			callee := e.Callee.Func
 			if visit != nil {
-				visit(e, cur.mode)
+				visit(e, cur)
 			}
 			if r.Skip != nil && r.Skip(callee) {
 				continue
 			}
 			var m searchMode
+			var entry *ssa.Function
 			switch {
 			case r.p.InModule(callee):
 				m = modeModule
+				if cur.mode != modeModule && r.PreciseCallbacks && !r.p.mayCallBack(cur.entry, callee) {
+					continue // a callback the entering module function cannot have supplied
+				}
 			case cur.mode == modeExtDynamic:
 				m = modeExtDynamic
+				entry = cur.entry
 			case edgeIsStatic(e):
 				m = modeExtStatic
+				entry = cur.entry
 			default:
 				m = modeExtDynamic
+				entry = cur.entry
 			}
-			st := searchState{callee, m}
+			if cur.mode == modeModule && m != modeModule {
+				entry = cur.fn
+			}
+			st := searchState{callee, m, entry}
 			if _, ok := r.prev[st]; !ok {
 				r.prev[st] = searchHop{prev: cur, edge: e, valid: true}
 				queue = append(queue, st)
@@ -164,8 +183,8 @@ func (r *Reach) ReachedModuleFuncs() []*ssa.Function {
 }
 
 func (r *Reach) Reached(f *ssa.Function) bool {
-	for _, m := range []searchMode{modeModule, modeExtStatic, modeExtDynamic} {
-		if _, ok := r.prev[searchState{f, m}]; ok {
+	for st := range r.prev {
+		if st.fn == f {
 			return true
 		}
 	}
@@ -188,4 +207,88 @@ func (p *Program) CalleesAt(site ssa.CallInstruction) []*ssa.Function {
 		}
 	}
 	return siteCalleeIndex[site]
+}
+
+var callbackCache = map[*ssa.Function]*callbackInfo{}
+
+type callbackInfo struct {
+	funcs     map[*ssa.Function]bool
+	types     map[string]bool
+	forwards  bool
+}
+
+func (p *Program) callbackInfoOf(f *ssa.Function) *callbackInfo {
+	if ci, ok := callbackCache[f]; ok {
+		return ci
+	}
+	ci := &callbackInfo{funcs: map[*ssa.Function]bool{}, types: map[string]bool{}}
+	callbackCache[f] = ci
+	for _, prm := range f.Params {
+		switch prm.Type().Underlying().(type) {
+		case *types.Interface, *types.Signature:
+			ci.forwards = true
+		}
+	}
+	for _, fv := range f.FreeVars {
+		switch fv.Type().Underlying().(type) {
+		case *types.Interface, *types.Signature:
+			ci.forwards = true
+		}
+	}
+	var scan func(g *ssa.Function)
+	scan = func(g *ssa.Function) {
+		forEachInstr(g, func(ins ssa.Instruction) {
+			for _, op := range ins.Operands(nil) {
+				if op == nil || *op == nil {
+					continue
+				}
+				switch v := (*op).(type) {
+				case *ssa.Function:
+					ci.funcs[v] = true
+				case *ssa.MakeClosure:
+					ci.funcs[v.Fn.(*ssa.Function)] = true
+				}
+				if rel, name, ok := namedOf((*op).Type()); ok {
+					ci.types[rel+"."+name] = true
+				}
+			}
+			if mc, ok := ins.(*ssa.MakeClosure); ok {
+				ci.funcs[mc.Fn.(*ssa.Function)] = true
+			}
+			if v, ok := ins.(ssa.Value); ok {
+				if rel, name, ok := namedOf(v.Type()); ok {
+					ci.types[rel+"."+name] = true
+				}
+			}
+		})
+		for _, af := range g.AnonFuncs {
+			ci.funcs[af] = true
+			scan(af)
+		}
+	}
+	scan(f)
+	return ci
+}
+
+// mayCallBack: can the module function `entry`, having called into the
+// standard library, be the origin of a callback to module function g?
+func (p *Program) mayCallBack(entry, g *ssa.Function) bool {
+	if entry == nil {
+		return true
+	}
+	ci := p.callbackInfoOf(entry)
+	if ci.forwards {
+		return true
+	}
+	for h := g; h != nil; h = h.Parent() {
+		if ci.funcs[h] {
+			return true
+		}
+	}
+	if recv := g.Signature.Recv(); recv != nil {
+		if rel, name, ok := namedOf(recv.Type()); ok && ci.types[rel+"."+name] {
+			return true
+		}
+	}
+	return false
 }
